@@ -53,7 +53,7 @@ def declare(ops):
             default_currency[op['model']] = 'NUMERAIRE'
         elif name == 'Builder':
             d.unsupported.append('Builder')
-        elif name in ('ConsolidatedGovernment', 'GoldStandardGovernment', 'Treasury', 'CentralBank',
+        elif name in ('FixedMarginBusinessSub', 'ConsolidatedGovernment', 'GoldStandardGovernment', 'Treasury', 'CentralBank',
                       'GoldStandardCentralBank', 'Household', 'HouseholdWithExpectations', 'Capitalists',
                       'FixedMarginBusiness', 'FixedMarginBusinessMultiOutput', 'TaxFlow', 'Market', 'MoneyMarket',
                       'DepositMarket', 'Sector'):
@@ -72,7 +72,8 @@ def declare(ops):
                 s['demands'].append(op.get('good') or 'GOOD')
             elif name in GOVS:
                 s['demands'].append('GOOD')
-            elif name == 'FixedMarginBusiness':
+            elif name in ('FixedMarginBusiness', 'FixedMarginBusinessSub'):
+                s['cls'] = 'FixedMarginBusiness'
                 s['demands'].append(op.get('labour') or 'LAB')
                 s['output'] = op.get('output') or 'GOOD'
             elif name == 'FixedMarginBusinessMultiOutput':
